@@ -22,6 +22,7 @@
 
 from __future__ import annotations
 
+from contextlib import suppress
 from dataclasses import dataclass
 from typing import TYPE_CHECKING
 from typing import Any
@@ -109,10 +110,26 @@ class BaseOptimizationLibrary(BaseDriverLibrary):
     ALGORITHM_INFOS: ClassVar[dict[str, OptimizationAlgorithmDescription]] = {}
     """The description of the algorithms contained in the library."""
 
+    __kkt_checker: _KKTChecker | None
+    """The listener verifying the KKT stopping criterion during an execution, if any."""
+
     def __init__(self, algo_name: str) -> None:  # noqa:D107
         super().__init__(algo_name)
         self._f_tol_tester = ObjectiveToleranceTester()
         self._x_tol_tester = DesignToleranceTester()
+        self.__kkt_checker = None
+
+    def _clear_listeners(self, problem: OptimizationProblem) -> None:
+        super()._clear_listeners(problem)
+        if self.__kkt_checker is not None:
+            # The KKT stopping criterion of this execution
+            # must not stop the next executions on the same problem.
+            with suppress(ValueError):
+                problem.database.clear_listeners(
+                    new_iter_listeners=None, store_listeners=[self.__kkt_checker]
+                )
+
+            self.__kkt_checker = None
 
     def _check_constraints_handling(self, problem: OptimizationProblem) -> None:
         """Check if problem and algorithm are consistent for constraints handling."""
@@ -180,13 +197,14 @@ class BaseOptimizationLibrary(BaseDriverLibrary):
             kkt_abs_tol = settings[self._KKT_TOL_ABS]
             kkt_rel_tol = settings[self._KKT_TOL_REL]
             if not isinf(kkt_abs_tol) or not isinf(kkt_rel_tol):
+                self.__kkt_checker = _KKTChecker(
+                    problem,
+                    kkt_abs_tol,
+                    kkt_rel_tol,
+                    settings[self._INEQ_TOLERANCE],
+                )
                 problem.add_listener(
-                    _KKTChecker(
-                        problem,
-                        kkt_abs_tol,
-                        kkt_rel_tol,
-                        settings[self._INEQ_TOLERANCE],
-                    ),
+                    self.__kkt_checker,
                     at_each_iteration=False,
                     at_each_function_call=True,
                 )
